@@ -1,3 +1,565 @@
-import ElfioVerif.Model.Writer
+/-
+C05 — load, edit, save, load preserves what the user did not touch.
+
+Proved:
+ 1. `save_writes_fields` — frame theorem over all passes of `save` (initial `get_data`, alignment pass,
+    segment loop by induction over ordered segments and member lists, loose sections, residency):
+    a section keeps everything but placement (`offset`; `addr`/`addrSet` if it had no address) and data
+    residency; a segment everything but `offset`, `filesz`, `memsz` (grows, ELF64), `align` (grows),
+    `offsetSet`.  Hypothesis: segments carry their position as index.
+ 2. `wsdStep_equidistant` (ELF64: the placing step establishes `vaddr + (offset − start) = addr`) and
+    `image_bytes_at_same_vaddr` — corollary-by-hypothesis of C04's `member_equidistant`: in the saved
+    bytes, `p_vaddr + (sh_offset − p_offset) = sh_addr`, that address is the old one, and the section's
+    data are at the file position the loader maps to it.
+ 3. `loaded_resave_fields` (+ `loaded_resave_names`) — relative to the abstract predicate `Loaded`
+    (what a loader reports for an image, stated against the specification decoder; C02 proves the
+    model's loader delivers it): save then load gives the same sections (name offset, type, flags,
+    size, link, info, alignment, entry size, address if one was set, data) and segments (type, flags,
+    addresses; alignment and ELF64 memory size ≥).  Uses C03's `save_decode_fields` and `LayoutOk`.
+ 4. `edit_frame` (+ `edit_frame_add_section`) — two objects that agree on header, segments and all
+    (resident) member sections are laid out identically as far as segments and members go; so adding a
+    section or appending to a non-member leaves every member's offset/address and every segment's
+    offset/sizes unchanged.  (Locality lemmas `wsdStep_agree … saveFold_agree` in Lemmas/Save.)
+Not proved: equality (rather than ≥) of a reloaded segment's memory size — it holds when the segment's
+memory size already covered its members (`RoundTrippable`), which is C04's `memsz_covers` territory;
+that the model's `load` satisfies `Loaded` on writer output (C02 + C04).
+-/
+import ElfioVerif.Lemmas.Save
+import ElfioVerif.Props.C03
 namespace ElfioVerif.C05
+open Gen C03
+open Sv
+
+/-! ### 1. what `save` changes of the object -/
+
+/-- `b` is section `a` after a `save()`: apart from the placement (`offset`; `addr`/`addrSet` for a
+    section that had no address) and the residency of lazily loaded data, nothing changes — in
+    particular not name, name offset, type, flags, size, link, info, alignment, entry size. -/
+structure SecSaved (a b : SecBuf) : Prop where
+  rest : b = { a with offset := b.offset, addr := b.addr, addrSet := b.addrSet, data := b.data,
+                      dataSize := b.dataSize, isLoaded := b.isLoaded, canLoad := b.canLoad }
+  /-- an address that was set (explicitly, or by loading) is kept -/
+  addrKept : a.addrSet = true → b.addr = a.addr ∧ b.addrSet = true
+  /-- a data buffer that exists is kept (every section of a created object that has data; every
+      resident section of a loaded one) -/
+  dataSome : a.data.isSome = true → b.data = a.data ∧ b.dataSize = a.dataSize
+  /-- a resident section (or one that can no longer be loaded) keeps all of its data state -/
+  dataKept : (a.isLoaded = true ∨ a.canLoad = false) →
+    b.data = a.data ∧ b.dataSize = a.dataSize ∧ b.isLoaded = a.isLoaded ∧ b.canLoad = a.canLoad
+
+theorem secSaved_of {a a0 m b : SecBuf} (h0 : ResFrame a a0) (h1 : SecFrame a0 m) (h2 : ResFrame m b) :
+    SecSaved a b := by
+  have e0 := h0.rest; have e1 := h1.rest; have e2 := h2.rest
+  refine ⟨?_, fun h => ?_, fun h => ?_, fun h => ?_⟩
+  · rw [e0] at e1
+    rw [e1] at e2
+    rw [e2]
+  · have ha0 : a0.addrSet = true := by rw [e0]; exact h
+    obtain ⟨p, q⟩ := h1.addrKept ha0
+    have : a0.addr = a.addr := by rw [e0]
+    rw [e2]; exact ⟨p.trans this, q⟩
+  · obtain ⟨p0, q0⟩ := h0.dataSome h
+    have hm : m.data.isSome = true := by rw [e1]; show a0.data.isSome = true; rw [p0]; exact h
+    obtain ⟨p2, q2⟩ := h2.dataSome hm
+    have pm : m.data = a0.data := by rw [e1]
+    have qm : m.dataSize = a0.dataSize := by rw [e1]
+    exact ⟨p2.trans (pm.trans p0), q2.trans (qm.trans q0)⟩
+  · have ea : a0 = a := h0.resident h
+    subst ea
+    have hm : m.isLoaded = true ∨ m.canLoad = false := by rw [e1]; exact h
+    have := h2.resident hm
+    rw [this, e1]; exact ⟨rfl, rfl, rfl, rfl⟩
+
+/-- the header fields of a section that `save` leaves alone, spelled out -/
+theorem SecSaved.fields {a b : SecBuf} (h : SecSaved a b) :
+    b.name = a.name ∧ b.nameOff = a.nameOff ∧ b.stype = a.stype ∧ b.flags = a.flags ∧ b.size = a.size ∧
+    b.link = a.link ∧ b.info = a.info ∧ b.addrAlign = a.addrAlign ∧ b.entSize = a.entSize ∧
+    b.index = a.index ∧ b.cls = a.cls := by
+  rw [h.rest]; exact ⟨rfl, rfl, rfl, rfl, rfl, rfl, rfl, rfl, rfl, rfl, rfl⟩
+
+theorem SegSaved.fields {c : Cls} {g g' : Seg} (h : SegSaved c g g') :
+    g'.stype = g.stype ∧ g'.flags = g.flags ∧ g'.vaddr = g.vaddr ∧ g'.paddr = g.paddr ∧
+    g'.secs = g.secs ∧ g'.index = g.index ∧ g.align.toNat ≤ g'.align.toNat ∧
+    (c = .c64 → g.memsz.toNat ≤ g'.memsz.toNat) := by
+  refine ⟨?_, ?_, ?_, ?_, ?_, ?_, h.frame.alignGrows, h.frame.memGrows⟩ <;> rw [h.frame.rest]
+
+/-- **save_writes_fields** : a successful `save` keeps the number and order of sections and
+    segments; of a section it changes only the placement (`SecSaved`), of a segment only `offset`,
+    `filesz`, `memsz` (grows), `align` (grows), `offsetSet` (`SegSaved`); class, byte order and address
+    translation of the object are untouched.  Frame theorem over `calc_segment_alignment`, the
+    segment loop (`write_segment_data` by induction over the member lists), the loose sections and
+    the residency pass (`save_frames`).  Hypothesis `SegIdxOk`: segments carry their position as
+    index (the "put back by index" step of the model relies on it; true below 65536 segments). -/
+theorem save_writes_fields {o : Obj} {os : OStream} {r : SaveRes} (h : save o os = .ok r) (hok : r.ok = true)
+    (hidx : SegIdxOk o.segs) :
+    FrameL SecSaved o.secs r.obj.secs ∧ FrameL (SegSaved o.cls) o.segs r.obj.segs ∧
+    r.obj.cls = o.cls ∧ r.obj.enc = o.enc ∧ r.obj.trans = o.trans := by
+  obtain ⟨⟨l0, l1, f0, f1, f2⟩, fs, e1, e2, e3⟩ := save_frames h hok hidx
+  have f01 : FrameL (fun a m => ∃ a0, ResFrame a a0 ∧ SecFrame a0 m) o.secs l1 :=
+    FrameL.comp (R := ResFrame) (S := Placed o.cls) (fun a a0 m h0 h1 => ⟨a0, h0, Placed.frame h1⟩) f0 f1
+  exact ⟨FrameL.comp (S := ResFrame) (T := SecSaved)
+    (fun a m b h1 h2 => by obtain ⟨a0, h0, h1'⟩ := h1; exact secSaved_of h0 h1' h2) f01 f2, fs, e1, e2, e3⟩
+
+/-! ### 2. the memory image -/
+
+/-- equidistance of member `s` in segment `g` (C04's `member_equidistant`): the section lies as far
+    behind the segment's start in the file as in memory, i.e. the loader maps its first byte to its
+    address -/
+def Equidistant (g : Seg) (s : SecBuf) : Prop := g.vaddr + (s.offset - g.offset) = s.addr
+
+/-- **the step that places a member establishes equidistance** (ELF64): whenever
+    `write_segment_data` places a not-yet-generated member that either had no address or is
+    file-occupying and non-empty, the section's new offset and address satisfy
+    `vaddr_g + (offset_s − segment start) = addr_s`.  (A NOBITS or empty member *with* an explicit
+    address is placed at the cursor regardless of its address — F14 — and is excluded.) -/
+theorem wsdStep_equidistant {g : Seg} {ss : BitVec 64} {st st' : WsdSt} {idx : BitVec 16} {sec : SecBuf}
+    (h : wsdStep .c64 g ss st idx = .ok (some st')) (hs : st.lay.secs[idx.toNat]? = some sec)
+    (hgen : st.lay.gen[idx.toNat]? = some false) (hnn : wsd_is_null sec.stype = false)
+    (hidx : sec.index ≠ 0)
+    (hocc : sec.addrSet = false ∨ (sec.stype ≠ BitVec.ofNat 32 SHT_NOBITS ∧ sec.size ≠ 0)) :
+    ∃ sec', st'.lay.secs[idx.toNat]? = some sec' ∧ g.vaddr + (sec'.offset - ss) = sec'.addr ∧
+      sec'.addrSet = true := by
+  unfold wsdStep at h
+  rw [hs, hgen] at h
+  simp only [hnn, Bool.false_eq_true, if_false] at h
+  have hi : (sec.index != 0) = true := by simpa using hidx
+  split at h
+  · cases h
+  · rename_i gap hgap
+    simp only [pure, Except.pure, Except.ok.injEq, Option.some.injEq] at h
+    subst h
+    have hlt : idx.toNat < st.lay.secs.length := by
+      rcases Nat.lt_or_ge idx.toNat st.lay.secs.length with h' | h'
+      · exact h'
+      · rw [List.getElem?_eq_none h'] at hs; cases hs
+    refine ⟨_, List.getElem?_set_self hlt, ?_⟩
+    cases has : sec.addrSet with
+    | false =>
+      simp only [Bool.not_false, if_true, setOffset, hi, truncA]
+      refine ⟨?_, trivial⟩
+      simp only [wsd_new_addr]
+      bv_omega
+    | true =>
+      rcases hocc with h1 | ⟨h1, h2⟩
+      · rw [has] at h1; cases h1
+      · simp only [has, Bool.not_true, Bool.false_eq_true, if_false, setOffset, hi, if_true, truncA]
+        refine ⟨?_, trivial⟩
+        -- the address-driven gap
+        have hb : wsd_addr_branch false true sec.stype sec.size = true := by
+          have e1 : (BitVec.ofNat 32 SHT_NOBITS != sec.stype) = true := by
+            simp only [bne_iff_ne, ne_eq]; exact fun e => h1 e.symm
+          have e2 : (BitVec.ofNat 32 SHT_NULL != sec.stype) = true := by
+            simp only [wsd_is_null, beq_eq_false_iff_ne, ne_eq] at hnn
+            simp only [bne_iff_ne, ne_eq]; exact hnn
+          have e3 : ((0 : BitVec 64) != sec.size) = true := by
+            simp only [bne_iff_ne, ne_eq]; exact fun e => h2 e.symm
+          simp only [wsd_addr_branch, e1, e2]
+          simpa using e3
+        rw [has, hb] at hgap
+        simp only [if_true] at hgap
+        split at hgap
+        · cases hgap
+        · simp only [Option.some.injEq] at hgap
+          subst hgap
+          simp only [wsd_cursor_gap, wsd_gap_addr, wsd_req_offset, wsd_cur_offset]
+          bv_omega
+
+open C03 in
+/-- **image_bytes_at_same_vaddr** (corollary-by-hypothesis of C04's `member_equidistant`): let `b`,
+    `g'` be section `i` and segment `j` of the saved object and assume they are equidistant.  Then in
+    the *saved bytes*, read with the specification's decoder: (1) `p_vaddr + (sh_offset − p_offset) =
+    sh_addr` — the loader maps the section's first file byte to the section's address; (2) that
+    address is the one the object held before the save, if it had one (always, for a loaded object);
+    (3) the section's data bytes are found at the file position the loader maps to `sh_addr`,
+    i.e. at `p_offset + (sh_addr − p_vaddr)`: every byte of the memory image that came from this
+    section is at the same virtual address as before. -/
+theorem image_bytes_at_same_vaddr {o : Obj} {os : OStream} {r : SaveRes} (hs : save o os = .ok r)
+    (hok : r.ok = true) (hg : os.Good) (htr : o.trans = []) (hidx : SegIdxOk o.segs) {h : Bytes}
+    (hh : r.obj.hdr = some h) (hl : LayoutOk r.obj.cls r.obj.enc h r.obj.secs r.obj.segs)
+    {i j : Nat} {a b : SecBuf} {g g' : Seg} (ha : o.secs[i]? = some a) (hb : r.obj.secs[i]? = some b)
+    (hgj : o.segs[j]? = some g) (hg' : r.obj.segs[j]? = some g')
+    (hfa : FieldsFit o.cls a) (hfg : SegFit o.cls g') (heq : Equidistant g' b) :
+    let img := r.os.content
+    let sb := (Hdr.e_shoff o.cls o.enc h).toNat + (Hdr.e_shentsize o.cls o.enc h).toNat * a.index
+    let pb := (Hdr.e_phoff o.cls o.enc h).toNat + (Hdr.e_phentsize o.cls o.enc h).toNat * g.index
+    let shAddr := BitVec.ofNat 64 (Spec.get (Spec.shdrL o.cls) o.enc img sb "sh_addr")
+    let shOff := BitVec.ofNat 64 (Spec.get (Spec.shdrL o.cls) o.enc img sb "sh_offset")
+    let pVaddr := BitVec.ofNat 64 (Spec.get (Spec.phdrL o.cls) o.enc img pb "p_vaddr")
+    let pOff := BitVec.ofNat 64 (Spec.get (Spec.phdrL o.cls) o.enc img pb "p_offset")
+    pVaddr + (shOff - pOff) = shAddr ∧
+    pVaddr = g.vaddr ∧
+    (a.addrSet = true → shAddr = a.addr) ∧
+    (a.stype ≠ BitVec.ofNat 32 SHT_NOBITS → a.stype ≠ BitVec.ofNat 32 SHT_NULL → a.size ≠ 0 →
+      a.data.isSome = true → slice img (pOff + (shAddr - pVaddr)).toNat a.view.length = a.view) := by
+  obtain ⟨fsec, fseg, ec, ee, _⟩ := save_writes_fields hs hok hidx
+  have sv := fsec.2 i a b ha hb
+  have sg := fseg.2 j g g' hgj hg'
+  have hbm : b ∈ r.obj.secs := List.mem_of_getElem? hb
+  have hgm : g' ∈ r.obj.segs := List.mem_of_getElem? hg'
+  obtain ⟨hrec, dat⟩ := save_decodes_section hs hok hg htr hh hl hbm
+  have prec := save_decodes_segment hs hok hg htr hh hl hgm
+  rw [ec, ee] at hrec prec
+  have eidx : b.index = a.index := sv.fields.2.2.2.2.2.2.2.2.2.1
+  have egidx : g'.index = g.index := sg.frame.index
+  rw [eidx] at hrec
+  rw [egidx] at prec
+  -- the saved section's fields fit (placement fields are truncated by the setters)
+  have fitb : FieldsFit o.cls b := by
+    obtain ⟨⟨l0, l1, f0, f1, f2⟩, _⟩ := save_frames hs hok hidx
+    have hi0 : i < l0.length := by
+      rw [f0.1]
+      rcases Nat.lt_or_ge i o.secs.length with hlt | hge
+      · exact hlt
+      · rw [List.getElem?_eq_none hge] at ha; cases ha
+    have hi1 : i < l1.length := by rw [f1.1]; exact hi0
+    exact resFrame_fit (f2.2 i l1[i] b (List.getElem?_eq_getElem hi1) hb)
+      (placed_fit (f1.2 i l0[i] l1[i] (List.getElem?_eq_getElem hi0) (List.getElem?_eq_getElem hi1))
+        (resFrame_fit (f0.2 i a l0[i] ha (List.getElem?_eq_getElem hi0)) hfa))
+  obtain ⟨_, _, _, s3, s4, _, _, _, _, _⟩ := shdr_get_at hrec fitb
+  obtain ⟨_, _, p2, p3, _, _, _, _⟩ := phdr_get_at prec hfg
+  simp only
+  rw [s3, s4, p2, p3, BitVec.ofNat_toNat, BitVec.ofNat_toNat, BitVec.ofNat_toNat, BitVec.ofNat_toNat,
+    BitVec.setWidth_eq, BitVec.setWidth_eq, BitVec.setWidth_eq, BitVec.setWidth_eq]
+  unfold Equidistant at heq
+  refine ⟨heq, ?_, fun hset => (sv.addrKept hset).1, fun n1 n2 n3 n4 => ?_⟩
+  · rw [sg.frame.rest]
+  · have e : (g'.offset + (b.addr - g'.vaddr)) = b.offset := by rw [← heq]; bv_omega
+    rw [e]
+    have hst : b.stype = a.stype := sv.fields.2.2.1
+    have hsz : b.size = a.size := sv.fields.2.2.2.2.1
+    have hda : b.data = a.data := (sv.dataSome n4).1
+    cases hd : a.data with
+    | none => rw [hd] at n4; cases n4
+    | some d =>
+      have := dat (by rw [hst]; exact n1) (by rw [hst]; exact n2) (by rw [hsz]; exact n3) d (by rw [hda]; exact hd)
+      simpa only [SecBuf.view, hd, Option.getD_some, hsz] using this
+
+/-! ### 3. load after save -/
+
+/-- `secs`, `segs` are what a loader reports for image `img` in class `c`, byte order `enc` — stated
+    against the *specification's* decoder (that the model's `load` delivers exactly this on well-formed
+    images is C02: `shdr_fields_eq_spec`, `phdr_fields_eq_spec`, `ehdr_fields_eq_spec`).  Section `i`
+    is decoded from record `i` of the table at `e_shoff`; its data are the file bytes at its offset;
+    every address counts as set (`set_address(get_address())` at the end of `section::load`). -/
+structure Loaded (c : Cls) (enc : Enc) (secs : List SecBuf) (segs : List Seg) (img : Bytes) : Prop where
+  nsec : secs.length = Spec.get (Spec.ehdrL c) enc img 0 "e_shnum"
+  nseg : segs.length = Spec.get (Spec.ehdrL c) enc img 0 "e_phnum"
+  sec : ∀ (i : Nat) b, secs[i]? = some b →
+    let base := Spec.get (Spec.ehdrL c) enc img 0 "e_shoff" + Spec.get (Spec.ehdrL c) enc img 0 "e_shentsize" * i
+    let l := Spec.shdrL c
+    b.nameOff.toNat = Spec.get l enc img base "sh_name" ∧ b.stype.toNat = Spec.get l enc img base "sh_type" ∧
+    b.flags.toNat = Spec.get l enc img base "sh_flags" ∧ b.addr.toNat = Spec.get l enc img base "sh_addr" ∧
+    b.offset.toNat = Spec.get l enc img base "sh_offset" ∧ b.size.toNat = Spec.get l enc img base "sh_size" ∧
+    b.link.toNat = Spec.get l enc img base "sh_link" ∧ b.info.toNat = Spec.get l enc img base "sh_info" ∧
+    b.addrAlign.toNat = Spec.get l enc img base "sh_addralign" ∧
+    b.entSize.toNat = Spec.get l enc img base "sh_entsize" ∧ b.addrSet = true ∧
+    (b.stype ≠ BitVec.ofNat 32 SHT_NOBITS → b.stype ≠ BitVec.ofNat 32 SHT_NULL → b.size ≠ 0 →
+      b.view = slice img b.offset.toNat b.size.toNat)
+  seg : ∀ (j : Nat) g, segs[j]? = some g →
+    let base := Spec.get (Spec.ehdrL c) enc img 0 "e_phoff" + Spec.get (Spec.ehdrL c) enc img 0 "e_phentsize" * j
+    let l := Spec.phdrL c
+    g.stype.toNat = Spec.get l enc img base "p_type" ∧ g.flags.toNat = Spec.get l enc img base "p_flags" ∧
+    g.vaddr.toNat = Spec.get l enc img base "p_vaddr" ∧ g.paddr.toNat = Spec.get l enc img base "p_paddr" ∧
+    g.memsz.toNat = Spec.get l enc img base "p_memsz" ∧ g.align.toNat = Spec.get l enc img base "p_align"
+
+/-- sections carry their position as index (every created or loaded object below 65536 sections) -/
+def SecIdxOk (secs : List SecBuf) : Prop := ∀ (k : Nat) b, secs[k]? = some b → b.index = k
+
+/-- **loaded_resave_fields** : save an object and load the result (`o2`: any object that is `Loaded`
+    from the saved bytes).  Then `o2` has as many sections and segments as `o` (mod 2^16), and — in the
+    same order — every section has the same name offset, type, flags, size, link, info, alignment,
+    entry size, the same address if `o`'s section had one (for a loaded `o` every section has), and
+    the same data if it is file-occupying, non-empty and its data were in memory with a buffer of at
+    least `size` bytes; every segment has the same type, flags, virtual and physical address, an
+    alignment and (ELF64) a memory size of at least the old ones.  Hypotheses as `save_decode_fields`
+    (incl. C04's `LayoutOk` on the saved object) plus index bookkeeping. -/
+theorem loaded_resave_fields {o : Obj} {os : OStream} {r : SaveRes} (hs : save o os = .ok r) (hok : r.ok = true)
+    (hg : os.Good) (htr : o.trans = []) (hidx : SegIdxOk o.segs) (hsidx : SecIdxOk o.secs) {h hd : Bytes}
+    (hh : r.obj.hdr = some h) (hhd : o.hdr = some hd) (hlen : ehdrSize o.cls ≤ hd.length)
+    (hl : LayoutOk r.obj.cls r.obj.enc h r.obj.secs r.obj.segs)
+    (hfit : ∀ a ∈ o.secs, FieldsFit o.cls a) (hsegfit : ∀ g ∈ r.obj.segs, SegFit o.cls g)
+    {secs2 : List SecBuf} {segs2 : List Seg} (hld : Loaded o.cls o.enc secs2 segs2 r.os.content) :
+    secs2.length = o.secs.length % 65536 ∧ segs2.length = o.segs.length % 65536 ∧
+    (∀ (i : Nat) a b2, o.secs[i]? = some a → secs2[i]? = some b2 →
+      b2.nameOff = a.nameOff ∧ b2.stype = a.stype ∧ b2.flags = a.flags ∧ b2.size = a.size ∧ b2.link = a.link ∧
+      b2.info = a.info ∧ b2.addrAlign = a.addrAlign ∧ b2.entSize = a.entSize ∧ b2.addrSet = true ∧
+      (a.addrSet = true → b2.addr = a.addr) ∧
+      (a.stype ≠ BitVec.ofNat 32 SHT_NOBITS → a.stype ≠ BitVec.ofNat 32 SHT_NULL → a.size ≠ 0 →
+        (∃ d, a.data = some d ∧ a.size.toNat ≤ d.length) → b2.view = a.view)) ∧
+    (∀ (j : Nat) g g2, o.segs[j]? = some g → segs2[j]? = some g2 →
+      g2.stype = g.stype ∧ g2.flags = g.flags ∧ g2.vaddr = g.vaddr ∧ g2.paddr = g.paddr ∧
+      g.align.toNat ≤ g2.align.toNat ∧ (o.cls = .c64 → g.memsz.toNat ≤ g2.memsz.toNat)) := by
+  obtain ⟨_, _, _, _, _, _, _, _, _, _, esn, epn⟩ := save_decode_header hs hok hg htr hh hhd hlen hl
+  obtain ⟨dsec, dseg⟩ := save_decode_fields hs hok hg htr hidx hh hl hfit hsegfit
+  -- the table positions read from the image are the saved header's
+  obtain ⟨hd', h', e1, e2, key⟩ := save_header_fields hs hok
+  rw [hhd] at e1; cases e1
+  rw [hh] at e2; cases e2
+  have hlh : ehdrSize o.cls ≤ h.length := by rw [(key hlen).1]; exact hlen
+  obtain ⟨_, _, _, _, a4, a5, _, _, a8, _, a10, _, _⟩ := C02.ehdr_fields_eq_spec o.cls o.enc h hlh
+  have at0 := save_image_header hs hok hg htr hh hlh hl
+  have vn : ∀ name ∈ ["e_shoff", "e_shentsize", "e_phoff", "e_phentsize"], ValidName (Spec.ehdrL o.cls) name := by
+    cases o.cls <;> decide
+  have eshoff := (at0 "e_shoff" (vn _ (by decide))).trans a5.symm
+  have eshent := (at0 "e_shentsize" (vn _ (by decide))).trans a10.symm
+  have ephoff := (at0 "e_phoff" (vn _ (by decide))).trans a4.symm
+  have ephent := (at0 "e_phentsize" (vn _ (by decide))).trans a8.symm
+  refine ⟨hld.nsec.trans esn, hld.nseg.trans epn, ?_, ?_⟩
+  · intro i a b2 ha hb2
+    obtain ⟨l0, l1, l2, l3, l4, l5, l6, l7, l8, l9, l10, l11⟩ := hld.sec i b2 hb2
+    obtain ⟨d0, d1, d2, d3, d4, d5, d6, d7, d8, d9⟩ := dsec i a ha
+    have ei : a.index = i := hsidx i a ha
+    simp only [eshoff, eshent] at l0 l1 l2 l3 l4 l5 l6 l7 l8 l9
+    simp only [ei] at d0 d1 d2 d3 d4 d5 d6 d7 d8 d9
+    have est : b2.stype = a.stype := BitVec.eq_of_toNat_eq (l1.trans d1)
+    have esz : b2.size = a.size := BitVec.eq_of_toNat_eq (l5.trans d3)
+    refine ⟨BitVec.eq_of_toNat_eq (l0.trans d0), est, BitVec.eq_of_toNat_eq (l2.trans d2), esz,
+      BitVec.eq_of_toNat_eq (l6.trans d4), BitVec.eq_of_toNat_eq (l7.trans d5),
+      BitVec.eq_of_toNat_eq (l8.trans d6), BitVec.eq_of_toNat_eq (l9.trans d7), l10,
+      fun hset => BitVec.eq_of_toNat_eq (l3.trans (d8 hset)), fun n1 n2 n3 n4 => ?_⟩
+    obtain ⟨d, hdat, hdl⟩ := n4
+    have v2 := l11 (by rw [est]; exact n1) (by rw [est]; exact n2) (by rw [esz]; exact n3)
+    have v1 := d9 n1 n2 n3 (by rw [hdat]; rfl)
+    have hvl : a.view.length = a.size.toNat := by
+      simp only [SecBuf.view, hdat, Option.getD_some, List.length_take]; omega
+    rw [v2, l4, esz, ← hvl]
+    exact v1
+  · intro j g g2 hgj hg2
+    obtain ⟨l0, l1, l2, l3, l4, l5⟩ := hld.seg j g2 hg2
+    obtain ⟨d0, d1, d2, d3, d4, d5⟩ := dseg j g hgj
+    have ej : g.index = j := hidx j g hgj
+    simp only [ephoff, ephent] at l0 l1 l2 l3 l4 l5
+    simp only [ej] at d0 d1 d2 d3 d4 d5
+    refine ⟨BitVec.eq_of_toNat_eq (l0.trans d0), BitVec.eq_of_toNat_eq (l1.trans d1),
+      BitVec.eq_of_toNat_eq (l2.trans d2), BitVec.eq_of_toNat_eq (l3.trans d3), by rw [l5]; exact d4, ?_⟩
+    intro hc
+    rw [l4]; exact d5 hc
+
+/-- names: a section's name is read from the name table (section `e_shstrndx`) at its name offset;
+    table content and name offsets survive (`loaded_resave_fields`), so the names do — for every
+    resolver that is a function of table bytes and offset (`C08.get_refines`: the accessor is). -/
+theorem loaded_resave_names {st st2 a b2 : SecBuf} (hv : st2.view = st.view) (hn : b2.nameOff = a.nameOff) :
+    Spec.strAt st2.view b2.nameOff.toNat = Spec.strAt st.view a.nameOff.toNat := by rw [hv, hn]
+
+/-! ### 4. edits outside the segments -/
+
+/-- the getters the layout reads from the prepared header do not depend on the number of sections -/
+theorem saveHdr0_getters_congr {o o' : Obj} (hc : o'.cls = o.cls) (he : o'.enc = o.enc)
+    (hg : o'.segs.length = o.segs.length) (hd : Bytes) (hl : ehdrSize o.cls ≤ hd.length) :
+    Hdr.e_phoff o.cls o.enc (saveHdr0 o' hd) = Hdr.e_phoff o.cls o.enc (saveHdr0 o hd) ∧
+    Hdr.e_phentsize o.cls o.enc (saveHdr0 o' hd) = Hdr.e_phentsize o.cls o.enc (saveHdr0 o hd) ∧
+    Hdr.e_phnum o.cls o.enc (saveHdr0 o' hd) = Hdr.e_phnum o.cls o.enc (saveHdr0 o hd) ∧
+    Hdr.e_ehsize o.cls o.enc (saveHdr0 o' hd) = Hdr.e_ehsize o.cls o.enc (saveHdr0 o hd) := by
+  unfold saveHdr0
+  simp only [hc, he, hg]
+  generalize o.cls = c at *
+  generalize o.enc = e at *
+  generalize o.segs.length % 65536 = m
+  generalize (if m > 0 then (Hdr.e_ehsize c e (Hdr.set_phnum c e hd m)).toNat else 0) = p
+  have la : ehdrSize c ≤ (HField.phnum.set c e hd m).length := by rw [hdr_set_length _ _ _ _ _ hl]; exact hl
+  have lb : ehdrSize c ≤ (HField.phoff.set c e (HField.phnum.set c e hd m) p).length := by
+    rw [hdr_set_length _ _ _ _ _ la]; exact la
+  have key : ∀ n : Nat,
+      let k := HField.phoff.set c e (HField.phnum.set c e hd m) p
+      let h0 := HField.shoff.set c e (HField.shnum.set c e k n) 0
+      Hdr.e_phoff c e h0 = Hdr.e_phoff c e k ∧ Hdr.e_phentsize c e h0 = Hdr.e_phentsize c e k ∧
+      Hdr.e_phnum c e h0 = Hdr.e_phnum c e k ∧ Hdr.e_ehsize c e h0 = Hdr.e_ehsize c e k := by
+    intro n
+    have lc : ehdrSize c ≤ (HField.shnum.set c e (HField.phoff.set c e (HField.phnum.set c e hd m) p) n).length := by
+      rw [hdr_set_length _ _ _ _ _ lb]; exact lb
+    obtain ⟨_, _, _, _, a4, _, _, a7, a8, a9, _, _, _⟩ := hdr_set_frame .shnum c e _ n lb
+    obtain ⟨_, _, _, _, b4, _, _, b7, b8, b9, _, _, _⟩ := hdr_set_frame .shoff c e _ 0 lc
+    exact ⟨(b4 (by decide)).trans (a4 (by decide)), (b8 (by decide)).trans (a8 (by decide)),
+      (b9 (by decide)).trans (a9 (by decide)), (b7 (by decide)).trans (a7 (by decide))⟩
+  have k1 := key (o'.secs.length % 65536)
+  have k2 := key (o.secs.length % 65536)
+  exact ⟨k1.1.trans k2.1.symm, k1.2.1.trans k2.2.1.symm, k1.2.2.1.trans k2.2.2.1.symm, k1.2.2.2.trans k2.2.2.2.symm⟩
+
+theorem saveStep_congr {c : Cls} {e : Enc} {h0 h0' : Bytes}
+    (h1 : Hdr.e_phoff c e h0' = Hdr.e_phoff c e h0) (h2 : Hdr.e_phentsize c e h0' = Hdr.e_phentsize c e h0)
+    (h3 : Hdr.e_phnum c e h0' = Hdr.e_phnum c e h0) : saveStep c e h0' = saveStep c e h0 := by
+  funext acc g
+  unfold saveStep
+  rw [h1, h2, h3]
+
+/-- the indices that are members of some segment -/
+def MemberIdx (segs : List Seg) (i : Nat) : Prop := ∃ g ∈ segs, ∃ k ∈ g.secs, k.toNat = i
+
+theorem withoutSegment_member {segs : List Seg} {i : Nat} (h : MemberIdx segs i) : withoutSegment segs i = false := by
+  obtain ⟨g, hg, k, hk, e⟩ := h
+  unfold withoutSegment
+  simp only [Bool.not_eq_false', List.any_eq_true]
+  exact ⟨g, hg, k, hk, by simpa using e⟩
+
+/-- what the sections of a saved object are, for a member of a segment: the layout's version -/
+theorem saved_member_secs {o1 : Obj} {segs1 done : List Seg} {lay : Layout} {i : Nat} {x : SecBuf}
+    (hm : MemberIdx (tailSegs segs1 done) i) (hx : lay.secs[i]? = some x) (hs : x.Settled) :
+    (tailSecs o1 segs1 lay done)[i]? = some x := by
+  unfold tailSecs tailLoose
+  rw [layoutLoose_eq]
+  simp only [List.reverse_nil, List.nil_append]
+  have h1 : (looseSpec o1.cls (putBack segs1 done) lay.secs 0 lay.pos).1[i]? = some x := by
+    rw [looseSpec_getElem?_member _ _ _ 0 _ i (by rw [Nat.zero_add]; exact withoutSegment_member hm)]
+    exact hx
+  have := residentForSave_getElem? o1.cls o1.trans _ { st := o1.stream } [] i x h1 hs
+  simpa using this
+
+/-- **edit_frame** : two objects that differ only *outside* the segments — same class, byte order,
+    header buffer, segments, and the same (resident) section at every index that is a member of some
+    segment; the other sections, their number, their data may differ: a section added with
+    `sections.add` (which also extends the name table), data appended to a section that belongs to no
+    segment — are laid out identically as far as the segments go: after `save`, the segments are
+    equal (same offsets, file and memory sizes) and every member section is equal (same offset, same
+    address).  The segment loop reads and writes member sections only (`saveFold_agree`), and members
+    are laid out before loose sections. -/
+theorem edit_frame {o o' : Obj} {os os' : OStream} {r r' : SaveRes} {hd : Bytes}
+    (hs : save o os = .ok r) (hok : r.ok = true) (hs' : save o' os' = .ok r') (hok' : r'.ok = true)
+    (hc : o'.cls = o.cls) (he : o'.enc = o.enc) (hh : o.hdr = some hd) (hh' : o'.hdr = some hd)
+    (hl : ehdrSize o.cls ≤ hd.length) (hseg : o'.segs = o.segs) (hidx : SegIdxOk o.segs)
+    (hsec : ∀ i, MemberIdx o.segs i → o'.secs[i]? = o.secs[i]?)
+    (hset : ∀ i a, MemberIdx o.segs i → o.secs[i]? = some a → a.Settled)
+    (hn : ∀ i, MemberIdx o.segs i → i < o.secs.length % 65536 ∧ i < o'.secs.length % 65536) :
+    r'.obj.segs = r.obj.segs ∧ ∀ i, MemberIdx o.segs i → r'.obj.secs[i]? = r.obj.secs[i]? := by
+  -- segments keep their member lists through a save
+  obtain ⟨_, fsg, _, _, _⟩ := save_frames hs hok hidx
+  obtain ⟨hd1, segs1, ordered, lay, done, e1, _, h1, h2, h3, rfl⟩ := save_ok_unfold hs hok
+  obtain ⟨hd2, segs1', ordered', lay', done', e2, _, h1', h2', h3', rfl⟩ := save_ok_unfold hs' hok'
+  rw [hh] at e1; cases e1
+  rw [hh'] at e2; cases e2
+  obtain ⟨_, eobj, _, _⟩ := saveTail_ok hok
+  obtain ⟨_, eobj', _, _⟩ := saveTail_ok hok'
+  rw [eobj] at fsg
+  simp only at fsg
+  -- A. the initial residency pass leaves resident members alone
+  have hlen : ∀ i, MemberIdx o.segs i → i < o.secs.length ∧ i < o'.secs.length := fun i hi =>
+    ⟨Nat.lt_of_lt_of_le (hn i hi).1 (Nat.mod_le _ _), Nat.lt_of_lt_of_le (hn i hi).2 (Nat.mod_le _ _)⟩
+  have hpre : ∀ i, MemberIdx o.segs i → (preRes o).secs[i]? = o.secs[i]? := by
+    intro i hi
+    have hlt := (hlen i hi).1
+    have ha : o.secs[i]? = some o.secs[i] := List.getElem?_eq_getElem hlt
+    have := allResident_getElem? o.cls o.trans o.secs { st := o.stream } [] i _ ha (hset i _ hi ha)
+    rw [ha]
+    exact (by simpa using this : (allResident o.cls o.trans o.secs { st := o.stream } []).1[i]? = some o.secs[i])
+  have hpre' : ∀ i, MemberIdx o.segs i → (preRes o').secs[i]? = o.secs[i]? := by
+    intro i hi
+    have hlt := (hlen i hi).2
+    have ha : o'.secs[i]? = some o'.secs[i] := List.getElem?_eq_getElem hlt
+    have hs0 : (o'.secs[i]).Settled := hset i _ hi (by rw [← hsec i hi]; exact ha)
+    have := allResident_getElem? o'.cls o'.trans o'.secs { st := o'.stream } [] i _ ha hs0
+    rw [← hsec i hi, ha]
+    exact (by simpa using this : (allResident o'.cls o'.trans o'.secs { st := o'.stream } []).1[i]? = some o'.secs[i])
+  -- B. segment alignments
+  have esegs : (preRes o').segs = (preRes o).segs := hseg
+  have hmem : ∀ g ∈ o.segs, ∀ idx ∈ g.secs, MemberIdx o.segs idx.toNat := fun g hg idx hi => ⟨g, hg, idx, hi, rfl⟩
+  have eq1 : segs1 = segs1' := by
+    rw [esegs] at h1'
+    have : List.mapM (calcSegAlign (preRes o').secs) (preRes o).segs =
+        List.mapM (calcSegAlign (preRes o).secs) (preRes o).segs :=
+      mapM_congr' (fun g hg => calcSegAlign_congr (fun idx hi => by
+        rw [hpre' _ (hmem g hg idx hi), hpre _ (hmem g hg idx hi)]))
+    rw [this, h1] at h1'
+    cases h1'; rfl
+  subst eq1
+  have eq2 : ordered = ordered' := by rw [h2] at h2'; cases h2'; rfl
+  subst eq2
+  -- C. the header getters the layout reads
+  obtain ⟨g1, g2, g3, g4⟩ := saveHdr0_getters_congr hc he (by rw [hseg]) hd hl
+  rw [← saveHdr0_preRes o hd, ← saveHdr0_preRes o' hd] at g1 g2 g3 g4
+  have estep : saveStep o'.cls o'.enc (saveHdr0 (preRes o') hd) = saveStep o.cls o.enc (saveHdr0 (preRes o) hd) := by
+    rw [hc, he]; exact saveStep_congr g1 g2 g3
+  rw [estep] at h3'
+  -- D. the two initial layouts agree on members
+  have ag0 : AgreeOn (MemberIdx o.segs) (saveLay0 (preRes o) (saveHdr0 (preRes o) hd))
+      (saveLay0 (preRes o') (saveHdr0 (preRes o') hd)) := by
+    refine ⟨?_, fun i hi => ?_, fun i hi => ?_⟩
+    · show savePos0 (preRes o) _ = savePos0 (preRes o') _
+      unfold savePos0
+      show save_cursor0 (Hdr.e_ehsize o.cls o.enc _) (Hdr.e_phentsize o.cls o.enc _) (Hdr.e_phnum o.cls o.enc _) =
+        save_cursor0 (Hdr.e_ehsize o'.cls o'.enc _) (Hdr.e_phentsize o'.cls o'.enc _) (Hdr.e_phnum o'.cls o'.enc _)
+      rw [hc, he, g2, g3, g4]
+    · show (preRes o).secs[i]? = (preRes o').secs[i]?
+      rw [hpre i hi, hpre' i hi]
+    · show (List.replicate ((preRes o).secs.length % 65536) false)[i]? =
+        (List.replicate ((preRes o').secs.length % 65536) false)[i]?
+      rw [(preRes_frame o).1, (preRes_frame o').1, List.getElem?_replicate, List.getElem?_replicate,
+        if_pos (hn i hi).1, if_pos (hn i hi).2]
+  -- members of ordered segments are members
+  have hsub := orderedSegments_sub h2
+  have fa := mapM_ok_frame h1
+  have hordmem : ∀ g ∈ ordered, ∀ idx ∈ g.secs, MemberIdx o.segs idx.toNat := by
+    intro g hg idx hi
+    obtain ⟨k, hk⟩ := List.getElem?_of_mem (hsub g hg)
+    have hk' : k < (preRes o).segs.length := by
+      rw [← fa.1]
+      rcases Nat.lt_or_ge k segs1.length with h | h
+      · exact h
+      · rw [List.getElem?_eq_none h] at hk; cases hk
+    have := fa.2 k _ g (List.getElem?_eq_getElem hk') hk
+    have es := (calcSegAlign_frame (c := o.cls) this).1.secs
+    exact ⟨_, List.getElem_mem hk', idx, by rw [← es]; exact hi, rfl⟩
+  have hfold := saveFold_agree (c := o.cls) (e := o.enc) (h0 := saveHdr0 (preRes o) hd) ordered hordmem ag0 []
+  rw [h3, h3'] at hfold
+  obtain ⟨agl, edone⟩ := hfold
+  simp only at agl edone
+  subst edone
+  -- E. segments
+  rw [eobj, eobj']
+  refine ⟨rfl, fun i hi => ?_⟩
+  -- F. member sections
+  simp only
+  obtain ⟨ds, ed, run⟩ := saveFold_run ordered h3
+  simp only [List.nil_append] at ed
+  subst ed
+  obtain ⟨fsec, _, _⟩ := run.frame
+  have hlt := (hlen i hi).1
+  have ha : o.secs[i]? = some o.secs[i] := List.getElem?_eq_getElem hlt
+  have hlay0 : (saveLay0 (preRes o) (saveHdr0 (preRes o) hd)).secs[i]? = some o.secs[i] := by
+    show (preRes o).secs[i]? = _
+    rw [hpre i hi]; exact ha
+  have hli : i < lay.secs.length := by
+    rw [fsec.1]
+    rcases Nat.lt_or_ge i (saveLay0 (preRes o) (saveHdr0 (preRes o) hd)).secs.length with h | h
+    · exact h
+    · rw [List.getElem?_eq_none h] at hlay0; cases hlay0
+  have hx : lay.secs[i]? = some lay.secs[i] := List.getElem?_eq_getElem hli
+  have hxs : (lay.secs[i]).Settled := Placed.settled (fsec.2 i _ _ hlay0 hx) (hset i _ hi ha)
+  -- membership in the saved segments
+  have hm' : MemberIdx (tailSegs segs1 done) i := by
+    obtain ⟨g, hg, k, hk, e⟩ := hi
+    obtain ⟨j, hj⟩ := List.getElem?_of_mem hg
+    have hj' : j < (tailSegs segs1 done).length := by
+      rw [fsg.1]
+      rcases Nat.lt_or_ge j o.segs.length with h | h
+      · exact h
+      · rw [List.getElem?_eq_none h] at hj; cases hj
+    have := fsg.2 j g _ hj (List.getElem?_eq_getElem hj')
+    exact ⟨_, List.getElem_mem hj', k, by rw [this.frame.secs]; exact hk, e⟩
+  rw [saved_member_secs hm' hx hxs]
+  have hx' : lay'.secs[i]? = some lay.secs[i] := by rw [← agl.secs i hi]; exact hx
+  exact saved_member_secs hm' hx' hxs
+
+/-- **edit_frame, instantiated for `sections.add`** : adding a section to an object whose name table
+    is not a segment member changes neither the segments nor any member section of the saved result. -/
+theorem edit_frame_add_section {o o' : Obj} {name : Bytes} {os os' : OStream} {r r' : SaveRes} {hd : Bytes} {st : SecBuf}
+    (hh : o.hdr = some hd) (hl : ehdrSize o.cls ≤ hd.length)
+    (hst : o.secs[(Hdr.e_shstrndx o.cls o.enc hd).toNat]? = some st) (hI : st.Inv)
+    (hb : (Spec.addStr st.content name).1.length < 4294967296)
+    (hadd : sectionsAdd o name = .ok o')
+    (hnm : ¬ MemberIdx o.segs (Hdr.e_shstrndx o.cls o.enc hd).toNat)
+    (hcount : o.secs.length + 1 < 65536) (hmem : ∀ i, MemberIdx o.segs i → i < o.secs.length)
+    (hset : ∀ i a, MemberIdx o.segs i → o.secs[i]? = some a → a.Settled) (hidx : SegIdxOk o.segs)
+    (hs : save o os = .ok r) (hok : r.ok = true) (hs' : save o' os' = .ok r') (hok' : r'.ok = true) :
+    r'.obj.segs = r.obj.segs ∧ ∀ i, MemberIdx o.segs i → r'.obj.secs[i]? = r.obj.secs[i]? := by
+  obtain ⟨o2, st', nb, e, eo, elen, _, _, _, _, _, _, _, _, hother⟩ := sectionsAdd_name o name hd st hh hst hI hb
+  rw [hadd] at e; cases e
+  have hc : o'.cls = o.cls := by rw [eo]
+  have he : o'.enc = o.enc := by rw [eo]
+  have hh' : o'.hdr = some hd := by rw [eo]; exact hh
+  have hseg : o'.segs = o.segs := by rw [eo]
+  refine edit_frame hs hok hs' hok' hc he hh hh' hl hseg hidx (fun i hi => ?_) hset (fun i hi => ?_)
+  · exact hother i (hmem i hi) (fun e => hnm (e ▸ hi))
+  · have := hmem i hi
+    rw [elen, Nat.mod_eq_of_lt (by omega), Nat.mod_eq_of_lt hcount]
+    omega
+
 end ElfioVerif.C05
